@@ -58,10 +58,12 @@ Definition fwd_lpq (t : tmat) (L p q eps : R) (x z : list R) : R :=
   let B := cdistp p (transform t x) (transform t z) in
   exp (- Rpower (1 / L) q * (if Rle_dec eps B then Rpower (Rmax B eps) q else 0)).
 
-(* SumPowerLaplaceKernel.forward_func: |xm - z|^q per coordinate ; exp (-1/L^q * .) ; (1-c) * (sum / d) + c ; ** power *)
-Definition fwd_sum_power (t : tmat) (L q c : R) (power : nat) (x z : list R) : R :=
+(* SumPowerLaplaceKernel.forward_func: a = |xm - z| per coordinate ; where(a >= eps, clamp_min(a, eps) ** q, 0) (the coordinate is masked BEFORE the
+   power is taken) ; exp (-1/L^q * .) ; (1-c) * (sum / d) + c ; ** power *)
+Definition sp_term (eps q u : R) : R := if Rle_dec eps (Rabs u) then pw (Rmax (Rabs u) eps) q else 0.
+Definition fwd_sum_power (t : tmat) (L q c eps : R) (power : nat) (x z : list R) : R :=
   let dif := vsubR (transform t x) (transform t z) in
-  ((1 - c) * (rsumR (map (fun u => exp (- 1 / Rpower L q * pw (Rabs u) q)) dif) / INR (length x)) + c) ^ power.
+  ((1 - c) * (rsumR (map (fun u => exp (- 1 / Rpower L q * (if Rle_dec eps (Rabs u) then pw (Rmax (Rabs u) eps) q else 0))) dif) / INR (length x)) + c) ^ power.
 
 Lemma Rpower_inv_base L q : 0 < L -> Rpower (1 / L) q = / Rpower L q.
 Proof.
@@ -101,14 +103,44 @@ Proof.
   intros He. unfold fwd_lpq. cbv zeta. destruct (Rle_dec eps _) as [H|_]; [lra|]. rewrite Rmult_0_r. apply exp_0.
 Qed.
 
-Theorem fwd_sum_power_closed t L q c power x z : length x = length z -> wf_tmat t (length x) ->
+(* the clamp under an open mask is the identity *)
+Lemma sp_term_eq eps q u : sp_term eps q u = if Rle_dec eps (Rabs u) then pw (Rabs u) q else 0.
+Proof. unfold sp_term. destruct (Rle_dec eps (Rabs u)) as [H|_]; [|reflexivity]. rewrite Rmax_left by exact H. reflexivity. Qed.
+Lemma sp_term_open eps q u : eps <= Rabs u -> sp_term eps q u = pw (Rabs u) q.
+Proof. intros H. rewrite sp_term_eq. destruct (Rle_dec eps (Rabs u)); [reflexivity|contradiction]. Qed.
+Lemma sp_term_masked eps q u : Rabs u < eps -> sp_term eps q u = 0.
+Proof. intros H. rewrite sp_term_eq. destruct (Rle_dec eps (Rabs u)); [lra|reflexivity]. Qed.
+(* a vanishing coordinate: |0|^q = 0 (pw 0 q = 0) whether or not the mask is open *)
+Lemma sp_term_0 eps q : sp_term eps q 0 = pw (Rabs 0) q.
+Proof. rewrite sp_term_eq, Rabs_R0, pw_0. destruct (Rle_dec eps 0); reflexivity. Qed.
+Lemma sp_term_ok eps q u : u = 0 \/ eps <= Rabs u -> sp_term eps q u = pw (Rabs u) q.
+Proof. intros [->|H]; [apply sp_term_0|apply sp_term_open; exact H]. Qed.
+
+(* every coordinate of the transformed difference is 0 or at least eps in absolute value: the masked closure is the documented kernel *)
+Theorem fwd_sum_power_closed t L q c eps power x z : length x = length z -> wf_tmat t (length x) ->
   length (transform t x) = length (transform t z) -> length (transform t x) = length x ->
-  fwd_sum_power t L q c power x z = closed_sum_power t L q c power x z.
+  List.Forall (fun u => u = 0 \/ eps <= Rabs u) (vsubR (transform t x) (transform t z)) ->
+  fwd_sum_power t L q c eps power x z = closed_sum_power t L q c power x z.
 Proof.
-  intros Hl Hw Ht Hx. unfold fwd_sum_power, closed_sum_power. cbv zeta. rewrite <- transform_sub by assumption.
+  intros Hl Hw Ht Hx Hm. unfold fwd_sum_power, closed_sum_power. cbv zeta. rewrite <- transform_sub by assumption.
   rewrite vsubR_length by exact Ht. rewrite Hx.
-  replace (map (fun u => exp (- 1 / Rpower L q * pw (Rabs u) q)) (vsubR (transform t x) (transform t z)))
-    with (map (fun u => exp (- pw (Rabs u) q / Rpower L q)) (vsubR (transform t x) (transform t z)))
-    by (apply map_ext; intros u; f_equal; unfold Rdiv; ring).
-  reflexivity.
+  replace (map (fun u => exp (- 1 / Rpower L q * (if Rle_dec eps (Rabs u) then pw (Rmax (Rabs u) eps) q else 0))) (vsubR (transform t x) (transform t z)))
+    with (map (fun u => exp (- pw (Rabs u) q / Rpower L q)) (vsubR (transform t x) (transform t z))); [reflexivity|].
+  apply map_ext_in. intros u Hu. rewrite Forall_forall in Hm. fold (sp_term eps q u). rewrite (sp_term_ok eps q u (Hm u Hu)).
+  f_equal. unfold Rdiv. ring.
 Qed.
+
+(* all masks open *)
+Theorem fwd_sum_power_open t L q c eps power x z : length x = length z -> wf_tmat t (length x) ->
+  length (transform t x) = length (transform t z) -> length (transform t x) = length x ->
+  List.Forall (fun u => eps <= Rabs u) (vsubR (transform t x) (transform t z)) ->
+  fwd_sum_power t L q c eps power x z = closed_sum_power t L q c power x z.
+Proof.
+  intros Hl Hw Ht Hx Hm. apply fwd_sum_power_closed; try assumption.
+  apply (Forall_impl _ (fun u H => or_intror H) Hm).
+Qed.
+
+(* a masked coordinate enters the sum as exp 0 = 1, a constant *)
+Theorem fwd_sum_power_masked_coordinate L q eps u : Rabs u < eps ->
+  exp (- 1 / Rpower L q * (if Rle_dec eps (Rabs u) then pw (Rmax (Rabs u) eps) q else 0)) = 1.
+Proof. intros H. fold (sp_term eps q u). rewrite sp_term_masked by exact H. rewrite Rmult_0_r. apply exp_0. Qed.
